@@ -59,14 +59,14 @@ Section Readback.
   Hypothesis Hflags : forall bs : list bool, length bs = nflags -> rich_roundtrip flagc 5 bs.
   Hypothesis Hnames : length (fc_dec flagc) = nflags.
 
-  Theorem entry_reads_back cx (R : rarg -> rarg -> Prop) key args fl v :
+  Theorem entry_reads_back cx cx' (R : rarg -> rarg -> Prop) key args fl v :
     encode_entry_of cx table flagc fields (ERich key args fl) = Ok v ->
     length fl = nflags ->
     (forall te a c f x n, find_entry key table = Some te -> In (a, c, f) (te_dec te) -> arg_get rarg a args = Ok x ->
-       enc_arg cx c x = Ok n -> exists x', dec_arg cx c n = Ok x' /\ R x x') ->
+       enc_arg cx c x = Ok n -> exists x', dec_arg cx' c n = Ok x' /\ R x x') ->
     exists te args',
       find_entry key table = Some te /\
-      decode_entry_of cx table enum idf flagc fields v = Ok (Some (ERich key args' fl)) /\
+      decode_entry_of cx' table enum idf flagc fields v = Ok (Some (ERich key args' fl)) /\
       forall a c f, In (a, c, f) (te_dec te) ->
         exists x', arg_get rarg a args' = Ok x' /\
           ((exists x, arg_get rarg a args = Ok x /\ R x x') \/
@@ -81,7 +81,7 @@ Section Readback.
     rewrite forallb_forall in Hspec. pose proof (Hspec _ Hs) as Hok. unfold spec_entry_ok in Hok.
     apply andb_true_iff in Hok as [Hown Hargs]. apply src_eqb_eq in Hown. rewrite forallb_forall in Hargs.
     destruct (entry_matches_facts _ _ _ Hm) as (Hk & Ho & _ & Hdec & Hnda & _ & _ & _ & _).
-    destruct (matched_entry_correct rarg (dec_arg cx) (enc_arg cx) (wav_duration cx) _ idf _ _ Hm Hown)
+    destruct (matched_entry_correct rarg (dec_arg cx') (enc_arg cx) (wav_duration cx) _ idf _ _ Hm Hown)
       as (_ & _ & _ & Henc & Hdecode & _ & _ & _).
     specialize (Henc args r Hr).
     set (r' := map (fun p : string * N => if String.eqb (fst p) "_flags" then (fst p, fx) else p) r).
@@ -105,7 +105,7 @@ Section Readback.
     apply andb_true_iff in Hkk as [Hen Hnz]. apply negb_true_iff in Hnz.
     (* each argument row decodes *)
     assert (forall a c f, In (a, c, f) (te_dec te) ->
-              exists n x', rec_get f (val_rec fields v) = Ok n /\ dec_arg cx c n = Ok x' /\
+              exists n x', rec_get f (val_rec fields v) = Ok n /\ dec_arg cx' c n = Ok x' /\
                 ((exists x, arg_get rarg a args = Ok x /\ R x x') \/ (exists d, wav_duration cx args = Ok d /\ x' = AInt d)))
       as Hrow.
     { intros a c f Hrow. pose proof (proj1 (Hdec _) Hrow) as Hsa. pose proof (Hargs _ Hsa) as Hb. cbv beta iota in Hb.
@@ -120,7 +120,7 @@ Section Readback.
       - apply andb_true_iff in Hsrc as [Hsrc Hc]. apply src_eqb_eq in Hsrc. apply codec_eqb_eq in Hc. subst c.
         rewrite Hsrc in E. destruct E as (d & Hd & Hg).
         exists d, (AInt d). split; [f_equal; apply Hfield; assumption|]. split; [reflexivity|]. right. eauto. }
-    assert (exists args', decode_entry rarg (dec_arg cx) te (val_rec fields v) = Ok args') as [args' Hargs'].
+    assert (exists args', decode_entry rarg (dec_arg cx') te (val_rec fields v) = Ok args') as [args' Hargs'].
     { unfold decode_entry. apply mapM_all_ok. apply Forall_forall. intros [[a c] f] Hrw.
       destruct (Hrow _ _ _ Hrw) as (n & x' & Hg & Hd & _). rewrite Hg. cbn [bind]. rewrite Hd. cbn [bind]. eauto. }
     exists te, args'. split; [reflexivity|]. split.
@@ -317,4 +317,48 @@ Proof.
       destruct (flags_of action_flags_codec (vint "_flags" v)); [|discriminate]. cbn [bind] in Hd.
       inversion Hd as [Hkey]. rewrite Hkey in Ef0. congruence. }
     rewrite (decode_entry_plain_ctx cx cx' te _ (fun a c f Hin => Hplain te a c f Hf Hin) Hs). reflexivity.
+Qed.
+
+(* ---- the general form: written under the save's context cx, read under ANY later context cx' ------------------------------------ *)
+
+Theorem authored_action_reads_back_later cx cx' (R : rarg -> rarg -> Prop) key args fl v :
+  encode_entry_of cx gen_action_table action_flags_codec action_record_fields (ERich key args fl) = Ok v ->
+  length fl = 5%nat ->
+  (forall te a c f x n, find_entry key gen_action_table = Some te -> In (a, c, f) (te_dec te) -> arg_get rarg a args = Ok x ->
+     enc_arg cx c x = Ok n -> exists x', dec_arg cx' c n = Ok x' /\ R x x') ->
+  exists te args',
+    find_entry key gen_action_table = Some te /\
+    decode_entry_of cx' gen_action_table "TriggerActionId" "_action_id" action_flags_codec action_record_fields v
+      = Ok (Some (ERich key args' fl)) /\
+    forall a c f, In (a, c, f) (te_dec te) ->
+      exists x', arg_get rarg a args' = Ok x' /\
+        ((exists x, arg_get rarg a args = Ok x /\ R x x') \/ (exists d, wav_duration cx args = Ok d /\ x' = AInt d)).
+Proof.
+  apply (entry_reads_back gen_action_table spec_action_table action_record_fields "_action_id" "TriggerActionId"
+           action_flags_codec 5%nat action_table_matches action_spec_ok action_keys_ok (proj1 record_fields_nodup)).
+  - split; [simpl; tauto | discriminate].
+  - simpl; tauto.
+  - exact action_flags_rich.
+  - reflexivity.
+Qed.
+
+Theorem authored_condition_reads_back_later cx cx' (R : rarg -> rarg -> Prop) key args fl v :
+  encode_entry_of cx gen_condition_table condition_flags_codec condition_record_fields (ERich key args fl) = Ok v ->
+  length fl = 5%nat ->
+  (forall te a c f x n, find_entry key gen_condition_table = Some te -> In (a, c, f) (te_dec te) -> arg_get rarg a args = Ok x ->
+     enc_arg cx c x = Ok n -> exists x', dec_arg cx' c n = Ok x' /\ R x x') ->
+  exists te args',
+    find_entry key gen_condition_table = Some te /\
+    decode_entry_of cx' gen_condition_table "TriggerConditionId" "_condition_id" condition_flags_codec condition_record_fields v
+      = Ok (Some (ERich key args' fl)) /\
+    forall a c f, In (a, c, f) (te_dec te) ->
+      exists x', arg_get rarg a args' = Ok x' /\
+        ((exists x, arg_get rarg a args = Ok x /\ R x x') \/ (exists d, wav_duration cx args = Ok d /\ x' = AInt d)).
+Proof.
+  apply (entry_reads_back gen_condition_table spec_condition_table condition_record_fields "_condition_id" "TriggerConditionId"
+           condition_flags_codec 5%nat condition_table_matches condition_spec_ok condition_keys_ok (proj2 record_fields_nodup)).
+  - split; [simpl; tauto | discriminate].
+  - simpl; tauto.
+  - exact condition_flags_rich.
+  - reflexivity.
 Qed.
